@@ -65,7 +65,7 @@ PROPS = {
                "Zap.fieldsSame_sound"], MERGE_FILES),
     "C06": _p([{"gen": "C06"}], ["ZapProofs.Props.C06"],
               ["Zap.enumerate_spec", "Zap.C06_dict", "Zap.C06_sorted", "Zap.C06_term", "Zap.C06_same_unchanged"], MERGE_FILES),
-    "C07": _p([{"gen": "C07"}], ["ZapProofs.Props.C07"],
+    "C07": _p([{"regress": "d8_prealloc_missing_field.script"}, {"gen": "C07"}], ["ZapProofs.Props.C07"],
               ["Zap.C07_run", "Zap.C07_count", "Zap.C07_live", "Zap.C07_replace"], POST_FILES),
     "C08": _p([{"regress": "d1_stale_1hit.script"}, {"gen": "C08"}], ["ZapProofs.Props.C08", "ZapProofs.Props.C08Facts"],
               ["Zap.C08_dict", "Zap.C08_stale_1hit_counterexample", "Zap.C08_merge_writes_wf",
